@@ -43,6 +43,7 @@ def plan(ctx):
     cases += [("readbatch", i) for i in range(20 if t else 4)]
     cases += [("mpool", i) for i in range(12 if t else 2)]
     cases += [("fresh", i) for i in range(8 if t else 1)]
+    cases += [("analysis", i) for i in range(12 if t else 3)]
     return cases
 
 
@@ -461,9 +462,59 @@ def run_case(ctx, g):
         ctx.extra["wall_by_kind"][g["kind"]] = round(ctx.extra["wall_by_kind"].get(g["kind"], 0) + time.time() - t0, 2)
 
 
+def analysis_case(ctx, g):
+    """the public analysis helpers (is_P_unimodal, is_P_Kmodal, MAP_sample, max_phase_gap, ...): no call may read or change
+    numpy's / Python's global random state, and the result may not depend on it"""
+    import astropy.units as u
+    import thejoker as tj
+    import rec
+    from thejoker import samples_analysis as sa
+    rng = ctx.case_rng("analysis", g["index"])
+    n1, n2 = int(rng.integers(10, 50)), int(rng.integers(10, 50))
+    P = np.concatenate([rng.normal(8.0, 0.002, n1), rng.normal(21.0, 0.004, n2)])
+    s = tj.JokerSamples()
+    s["P"] = P * u.day
+    s["e"] = rng.uniform(0, 0.5, len(P)) * u.one
+    s["omega"] = rng.uniform(0, 6, len(P)) * u.rad
+    s["M0"] = rng.uniform(0, 6, len(P)) * u.rad
+    s["s"] = np.zeros(len(P)) * u.km / u.s
+    s["ln_prior"] = rng.normal(-5, 1, len(P))
+    s["ln_likelihood"] = rng.normal(-20, 3, len(P))
+    t = np.sort(rng.uniform(0, 300, 12)) + 58000.0
+    data = tj.RVData(t, rng.normal(0, 5, 12) * u.km / u.s, np.ones(12) * 0.5 * u.km / u.s)
+    calls = {
+        "is_P_unimodal": lambda: bool(sa.is_P_unimodal(s, data)),
+        "is_P_Kmodal": lambda: [np.asarray(getattr(x, "value", x)).tolist() for x in sa.is_P_Kmodal(s, data, n_clusters=2)],
+        "MAP_sample": lambda: float(sa.MAP_sample(s)["P"].value[0]),
+        "max_phase_gap": lambda: float(u.Quantity(sa.max_phase_gap(s[0], data)).value),
+        "phase_coverage": lambda: float(sa.phase_coverage(s[0], data)),
+    }
+    rel = "global numpy / Python random state untouched"
+    for name, fn in calls.items():
+        outs, changed = [], []
+        for k in (1, 2):
+            set_globals(k)
+            w = rec.GlobalRngWatch()
+            try:
+                outs.append(fn())
+            except Exception as e:   # noqa: BLE001
+                outs.append(f"raised {type(e).__name__}")
+            changed += w.changed()
+        ctx.evaluated(rel, ("analysis", name))
+        ctx.count(f"analysis:{name}")
+        if changed:
+            ctx.violation(rel, g, dict(call=name, n_samples=len(P)), dict(changed=sorted(set(changed))), None,
+                          f"{name} must not read or change numpy's / Python's global random state", tags=dict(entry=name, what="global-state"))
+        elif repr(outs[0]) != repr(outs[1]):
+            ctx.violation(rel, g, dict(call=name, n_samples=len(P)), dict(with_global_seed_1=outs[0], with_global_seed_2=outs[1]), None,
+                          f"the result of {name} must not depend on the global random state", tags=dict(entry=name, what="depends-on-global"))
+
+
 def _run_case(ctx, g):
     kind = g["kind"]
     ctx.seed = g.get("seed", ctx.seed)
+    if kind == "analysis":
+        return analysis_case(ctx, g)
     if kind in ("repeat", "intprior"):
         repeat_case(ctx, g, kind)
     elif kind == "prior":
